@@ -242,8 +242,12 @@ def check_flow(c, n_xors=1):
         else:
             invoked = []
             fail_with = []
+            callee_progress = []
 
             def endpoint(*a, **k):
+                det = k.pop("details", None)
+                if det is not None and det.progress is not None:
+                    det.progress(MARK + "-prog", n=1)        # a progressive result of the callee: must be encrypted like the final one
                 invoked.append((a, k))
                 if fail_with:
                     raise ApplicationError("com.myapp.error.e1", *args, **kwargs)
@@ -252,9 +256,9 @@ def check_flow(c, n_xors=1):
             for name, sid in (("com.myapp.proc1", 901), ("com.myapp.proc2", 902)):
                 if sid == 901 and c.get("prefix_reg"):
                     # pattern-based registration: the dealer names the concrete procedure in INVOCATION.details.procedure
-                    tr = r.track(r.call(lambda: r.session.register(endpoint, "com.myapp.pro", RegisterOptions(match="prefix"))))
+                    tr = r.track(r.call(lambda: r.session.register(endpoint, "com.myapp.pro", RegisterOptions(match="prefix", details_arg="details"))))
                 else:
-                    tr = r.track(r.call(lambda name=name: r.session.register(endpoint, name)))
+                    tr = r.track(r.call(lambda name=name: r.session.register(endpoint, name, RegisterOptions(details_arg="details"))))
                 r.feed(M.Registered(r.t.sent[-1].request, sid))
             old = None
             if layout == "rekey":
@@ -298,11 +302,23 @@ def check_flow(c, n_xors=1):
             def invoke(payload, reg=901):
                 p.rid += 1
                 n_inv, n_sent = len(invoked), len(r.t.sent)
+                want_progress = bool(c.get("progress")) and c["direction"] == "call" and reg == 901
                 err = r.feed(M.Invocation(p.rid, reg, payload=payload, enc_algo=call.enc_algo, enc_key=call.enc_key, enc_serializer=call.enc_serializer,
-                                          procedure="com.myapp.proc1" if (reg == 901 and c.get("prefix_reg")) else None))
+                                          procedure="com.myapp.proc1" if (reg == 901 and c.get("prefix_reg")) else None, receive_progress=True if want_progress else None))
                 if err is not None:
                     raise Violation("C20|invocation|onMessage-raised|" + exc_key(err), repr(err), c)
                 out = r.t.sent[n_sent:]
+                if want_progress and len(out) == 2 and type(out[0]).__name__ == "Yield" and out[0].progress:
+                    # the callee's progressive YIELD: encrypted, no clear payload, marker not on the wire
+                    prog_msg = out[0]
+                    if prog_msg.enc_algo != "cryptobox" or not prog_msg.payload or prog_msg.args or prog_msg.kwargs:
+                        raise Violation("C20|yield-progress|not-encrypted", "progressive YIELD: enc_algo=%r payload=%r args=%r kwargs=%r" % (
+                            prog_msg.enc_algo, bool(prog_msg.payload), brief(prog_msg.args), brief(prog_msg.kwargs)), c)
+                    data, _ = r.t._serializer.serialize(r.t.sent_raw[n_sent])
+                    if MARK.encode() in data:
+                        raise Violation("C20|yield-progress|clear-marker-on-the-wire", "", c)
+                    callee_progress.append(prog_msg)
+                    out = out[1:]
                 if len(out) != 1 or out[0].request != p.rid:
                     raise Violation("C20|invocation|not-answered-once", repr([type(m).__name__ for m in out]), c)
                 return invoked[n_inv:], out[0]
